@@ -182,10 +182,10 @@ class Evaluator:
         self.sites = sorted({m.pos for m in self.func})
         self.obs = {}
         for m in self.func + [Mutation(p, "_") for p in self.sites]:
-            if cov.single_copy(m.pos, cn) == 0:
-                self.obs[m] = 0.0
-            else:
-                self.obs[m] = cov[m] / cov.single_copy(m, cn)
+            # observed copies = share of the site's depth x copies the structure has there (restated, not
+            # taken from aldy's helper; a site without any depth counts as depth 1)
+            k_ = cn.position_cn(m.pos)
+            self.obs[m] = (cov[m] * k_ / max(1, cov.total(m))) if k_ else 0.0
 
     def novel_of(self, combo):
         carried = set()
@@ -333,6 +333,15 @@ def run_case(case, seg, viol, unsound, stats, sample):
     else:
         table = SL.planted_table(gene, planted, case["depth"], rng, noise=0.5, extra_noise=rng.randint(2, 6))
     profile = Profile("test", gap=case["gap"])
+    if len(cn) >= 3 and mode != "planted" and rng.random() < 0.3:
+        # a core site with fewer reads than the structure has copies (two reads of the variant, nothing else)
+        cns_ = CNSolution(gene, 0, cn)
+        cand = sorted((pos, op) for (pos, op) in gene.mutations
+                      if gene.is_functional((pos, op)) and ">" in op and len(op) == 3 and cns_.position_cn(pos) >= 3)
+        if cand:
+            pos, op = rng.choice(cand)
+            table[pos] = {op: 2, "_": rng.choice([0, 0, 1])}
+            stats["shallow_sites"] = stats.get("shallow_sites", 0) + 1
     if mode in ("noisy", "wild") and rng.random() < 0.5:
         # a site with three kinds of observation: an uncatalogued base listed FIRST that fails the read filter,
         # the reference, and a catalogued core substitution a hair below its limit (the limit is taken against
